@@ -169,6 +169,11 @@ impl IterationStamp {
     pub(crate) const fn iteration(self) -> u8 {
         self.0.to_le_bytes()[0]
     }
+
+    #[cfg(salsa_rs_salsa_verif)]
+    pub(crate) const fn verif_bits(self) -> u16 {
+        self.0
+    }
 }
 
 impl std::fmt::Debug for IterationStamp {
